@@ -9,7 +9,7 @@ use snel_harness::sys::{self, SysCfg};
 use snel_harness::sysops::{history_line, Exec, Op};
 use std::collections::BTreeMap;
 
-fn gen_history(r: &mut Rng, ntypes: u64, len: usize, crashes: bool) -> Vec<Op> {
+fn gen_history(r: &mut Rng, ntypes: u64, len: usize, crashes: bool, stepping: bool) -> Vec<Op> {
     let mut ops = vec![];
     let mut k = 0u64;
     let nctx = 1 + r.below(3);
@@ -17,7 +17,11 @@ fn gen_history(r: &mut Rng, ntypes: u64, len: usize, crashes: bool) -> Vec<Op> {
     let mut fav = r.below(ntypes);
     for _ in 0..len {
         let x = r.below(100);
-        let op = if x < 55 {
+        let op = if stepping && x >= 55 && x < 66 {
+            // single flush-worker steps, so that crashes land between "files written",
+            // "index saved", "published", …
+            Op::Adv
+        } else if x < 55 {
             k += 1;
             let ty = if r.chance(3, 4) { fav } else { r.below(ntypes) };
             Op::S { k, ctx: r.below(nctx), ty }
@@ -113,7 +117,7 @@ fn main() {
             };
             let ntypes = 1 + r.below(3);
             let len = 10 + r.below(30) as usize;
-            (cfg, ntypes, gen_history(&mut r, ntypes, len, crashes))
+            (cfg, ntypes, gen_history(&mut r, ntypes, len, crashes, immut))
         };
         let root = a.out.join(format!("{}-{i}", a.stream));
         let _ = std::fs::remove_dir_all(&root);
@@ -144,14 +148,23 @@ fn main() {
                     if fp.is_empty() && fail.is_none() {
                         fail = Some(format!("-\top#{n}: live list names segment {name} which has no files; {}", history_line(&cfg, ntypes, &ops)));
                     }
-                    if let Some(old) = born.get(name) {
-                        if *old != fp && fail.is_none() {
-                            // (a restart after a compaction that emptied L0 may legitimately reuse a number
-                            //  only after the old directory was reclaimed; then it was absent in between)
-                            fail = Some(format!("-\top#{n}: files of live segment {name} changed; {}", history_line(&cfg, ntypes, &ops)));
+                }
+                // every numeric directory on disk (published or not): while it exists its files
+                // never change — nothing is ever written into an existing directory
+                if let Ok(rd) = std::fs::read_dir(ex.s.shard_data_dir(0)) {
+                    for e in rd.flatten() {
+                        let name = e.file_name().to_string_lossy().to_string();
+                        if name.is_empty() || !name.chars().all(|c| c.is_ascii_digit()) || !e.path().is_dir() {
+                            continue;
                         }
+                        let fp = dir_fingerprint(&e.path());
+                        if let Some(old) = born.get(&name) {
+                            if *old != fp && fail.is_none() {
+                                fail = Some(format!("-\top#{n}: files of existing segment directory {name} changed ({} -> {} files); {}", old.len(), fp.len(), history_line(&cfg, ntypes, &ops)));
+                            }
+                        }
+                        now.insert(name, fp);
                     }
-                    now.insert(name.clone(), fp);
                 }
                 born = now;
             }
